@@ -298,8 +298,10 @@ func scenarios() []hx.Scenario {
 	}
 	var out []hx.Scenario
 	epoch := time.Date(2024, 1, 1, 0, 0, 0, 0, time.UTC)
+	horizon := time.Second
 	add := func(scripts [][]op, thoroughOnly bool, sem mc.TimerSem, clock []time.Duration, tag string) {
 		timeline := strings.HasPrefix(tag, "tl:")
+		horizon := horizon
 		hasE := false
 		for _, s := range scripts {
 			for _, o := range s {
@@ -316,7 +318,7 @@ func scenarios() []hx.Scenario {
 			Name:         tag + scriptName(scripts),
 			Class:        "queue.Processor",
 			ThoroughOnly: thoroughOnly,
-			Opts:         mc.Options{Bound: 2, TieCost: 1, AutoClock: true, ClockLast: timeline, ClockSteps: clock, Horizon: time.Second, TimerSem: sem, Epoch: epoch},
+			Opts:         mc.Options{Bound: 2, TieCost: 1, AutoClock: true, ClockLast: timeline, ClockSteps: clock, Horizon: horizon, TimerSem: sem, Epoch: epoch},
 			Mk:           func() *mc.Exec { return mkExec(sc, epoch, timeline) },
 		})
 	}
@@ -374,6 +376,21 @@ func scenarios() []hx.Scenario {
 			}
 		}
 	}
+	// long waits: items minutes, hours and days away (a loop that caps or splits
+	// its sleep must still not run anything early)
+	const minute = 600000 // tenths of a millisecond
+	long := []op{{'E', "a", 90 * minute}, {'E', "b", 30 * minute}, {'E', "a", 25 * 60 * minute}, {'E', "b", 61 * minute}, {'W', "", 45 * minute}, {'D', "a", 0}}
+	horizon = 30 * time.Hour
+	for _, a := range long {
+		add([][]op{{a}}, false, mc.TimerGo123, nil, "tl:long:")
+		for _, b := range long {
+			add([][]op{{a, b}}, false, mc.TimerGo123, nil, "tl:long:")
+			for _, c := range long {
+				add([][]op{{a, b, c}}, a.kind != 'E', mc.TimerGo123, nil, "tl:long:")
+			}
+		}
+	}
+	horizon = time.Second
 	// two Close calls from different goroutines next to a client at work: every
 	// Close — also the one that finds the processor already being closed —
 	// returns only when no callback is running or will run
